@@ -1,4 +1,5 @@
 import Libp2pModel.Model.C13
+import Libp2pModel.Model.C13Ident
 namespace Driver.C13
 open Drv
 
@@ -31,4 +32,42 @@ def machine : Machine Unit Unit where
 
 end Driver.C13
 
-def main : IO Unit := Driver.C13.machine.run
+/-! second part: identify's `NewExternalAddrCandidate` events (cases whose header has `id=1`) -/
+namespace Driver.C13Ident
+open Drv
+
+def parseKind : String → Option C13.ConnKind
+  | "new" => some .outNew
+  | "reuse" => some .outReuse
+  | "in" => some .inbound
+  | _ => none
+
+/-- candidates as a canonical token: rendered addresses sorted as strings, `;`-joined, `~` if none -/
+def showCands (l : List Maddr) : String :=
+  let toks := (l.map Maddr.render).mergeSort (fun a b => !decide (b < a))
+  if toks.isEmpty then "~" else ";".intercalate toks
+
+def machine : Machine Unit Unit where
+  init _ := ()
+  specInit _ := ()
+  op _ args :=
+    match args with
+    | ["ident", l, o, k] =>
+      match Maddr.parseList l, Maddr.parse o, parseKind k with
+      | some l, some o, some k => ((), "cands " ++ showCands (C13.candidates l o k))
+      | _, _, _ => ((), "bad-op")
+    | _ => ((), "bad-op")
+  spec _ args outs :=
+    match args, outs with
+    | ["ident", l, o, _], ["cands", c] =>
+      match Maddr.parseList l, Maddr.parse o, Maddr.parseList c with
+      | some l, some o, some c =>
+        ((), if C13.specIdent l o c then "ok"
+             else if c.isEmpty then "FAIL:ident_no_candidate" else "FAIL:ident_candidate_components")
+      | _, _, _ => ((), "FAIL:unparsable")
+    | _, _ => ((), "FAIL:unparsable")
+
+end Driver.C13Ident
+
+def main : IO Unit :=
+  (Drv.Machine.sum (fun cfg => cfg.contains "id=1") Driver.C13.machine Driver.C13Ident.machine).run
